@@ -11,8 +11,17 @@ LOOP_RULE = ("TLC enumerates (policy recipe, token sequence) of family fam_loop*
              "(nestw, nestx: only prefixes of well-nested documents that still close within MaxLen, every complete document emitted); each case is serialised in `variants` "
              "syntactic variants and run through the real Sanitize with hooks on; loop state and writes are compared with the "
              "prediction after every token and the property oracle is evaluated on the real output. Recorded random sessions "
-             "(random builder-API policies x generated documents) are validated line by line by Trace_Session.tla. "
+             "(random builder-API policies x generated documents; every other session extends its policy half-way) are validated line by line "
+             "by Trace_Session.tla; extendsweep: every recipe split at every point, the first part built and used on all one- and two-element "
+             "documents of the family, the rest applied, the documents sanitised again and judged. "
              "non-trivial = distinct (recipe, input) whose output differs from the input")
+
+
+def extend_sweeps(ctx, prop):
+    """build - use - extend - use on the loop families (harness-driven; the oracle judges)"""
+    import os
+    for fam in ("fam_nesty.json", "fam_nestx.json", "fam_loopq.json"):
+        ctx.vh("extend-" + fam[4:-5], ["extendsweep", "-fam", os.path.join(ctx.dir, fam), "-props", prop], timeout=1200)
 
 
 def loop_plan(prop):
@@ -26,6 +35,7 @@ def loop_plan(prop):
                 ctx.mc_replay("nestw7", "MC_Loop.tla", "MC_Loop_hist.cfg", "fam_nestw.json", props, variants=1, consts={"MaxLen": 7})
             ctx.mc_replay("nestx6", "MC_Loop.tla", "MC_Loop_hist.cfg", "fam_nestx.json", props, variants=1, consts={"MaxLen": 6})
             ctx.mc_replay("nesty6", "MC_Loop.tla", "MC_Loop_hist.cfg", "fam_nesty.json", props, variants=1, consts={"MaxLen": 6})
+            extend_sweeps(ctx, prop)
             ctx.trace("sessions", props, sessions=40, calls=25, check_attrs=True, kinds="0,1,2,3,4,5,8",
                       extra=["-nounsafe=false"] if prop in ("C08", "C09") else None)
             if prop in ("C08", "C09"):
@@ -38,6 +48,7 @@ def loop_plan(prop):
                 ctx.mc_replay("nestw8", "MC_Loop.tla", "MC_Loop_hist.cfg", "fam_nestw.json", props, variants=1, consts={"MaxLen": 8}, timeout=3000)
             ctx.mc_replay("nestx7", "MC_Loop.tla", "MC_Loop_hist.cfg", "fam_nestx.json", props, variants=1, consts={"MaxLen": 7}, timeout=3000)
             ctx.mc_replay("nesty8", "MC_Loop.tla", "MC_Loop_hist.cfg", "fam_nesty.json", props, variants=1, consts={"MaxLen": 8}, timeout=3000)
+            extend_sweeps(ctx, prop)
             ctx.trace("sessions", props, sessions=400, calls=40, timeout=3000, check_attrs=True, kinds="0,1,2,3,4,5,8",
                       extra=["-nounsafe=false"] if prop in ("C08", "C09") else None)
             if prop in ("C08", "C09"):
